@@ -53,10 +53,10 @@ def program(op, a):
         return "pub fn f(t: &SealedToken<%s, %s, Raw>) -> String { format!(\"{}\", t) }" % (TY[v], PURP[p])
     if op == "displayUnsealed":
         v, p = a
-        return "pub fn f(t: &UnsealedToken<%s, %s, Raw>) -> String { format!(\"{}\", t) }" % (TY[v], PURP[p])
+        return "pub fn f(t: &UnsealedToken<%s, %s, Raw, Raw>) -> String { format!(\"{}\", t) }" % (TY[v], PURP[p])
     if op == "serializeUnsealed":
         v, p = a
-        return "pub fn f(t: &UnsealedToken<%s, %s, Raw>) -> String { serde_json::to_string(t).unwrap() }" % (TY[v], PURP[p])
+        return "pub fn f(t: &UnsealedToken<%s, %s, Raw, Raw>) -> String { serde_json::to_string(t).unwrap() }" % (TY[v], PURP[p])
     if op == "fieldFooter":
         (v,) = a
         return "pub fn f(t: &SealedToken<%s, Local, Raw, Vec<u8>>) -> &Vec<u8> { &t.footer }" % TY[v]
